@@ -5,8 +5,3 @@ Import ListNotations.
 Open Scope string_scope.
 Open Scope list_scope.
 
-(* two different fluent texts with the same symbol name: the root of finding D21 (collisions) *)
-Lemma naming_refuted : ~ (forall a b : string, symbol_name a = symbol_name b -> a = b).
-Proof.
-  intros H. specialize (H "(f-x ?a)" "(fx ?a)" eq_refl). discriminate H.
-Qed.
